@@ -455,6 +455,9 @@ def gen_case(rng, k, stream):
             "s": us_of(s), "e": us_of(e), "cfg": cfg, "twist": None, "bad_names": []}
     if stream == "twist":
         apply_twist(rng, case)
+    if case["tokens"] and case["tokens"][-1][0] == "lit" and case["tokens"][-1][1].endswith("/"):
+        # (see apply_twist) a template ending in a path separator is a directory, not a file-name template
+        case["tokens"][-1] = ("lit", case["tokens"][-1][1].rstrip("/") or "f")
     return case
 
 
@@ -555,6 +558,10 @@ def apply_twist(rng, case):
         case["twist"] = tw + "-void"
         return
     case["tokens"] = merge_lits(toks)
+    if case["tokens"][-1][0] == "lit" and case["tokens"][-1][1].endswith("/"):
+        # a template that ends in a path separator names a directory, not a file (FileSet normalises the separator away):
+        # not a file-name template in the sense of C02 -- the generated literal loses its trailing separator
+        case["tokens"][-1] = ("lit", case["tokens"][-1][1].rstrip("/") or "f")
     case["s"], case["e"] = us_of(s), us_of(e)
 
 
